@@ -512,7 +512,21 @@ def main():
     ap.add_argument("--replay")
     ap.add_argument("--no-evidence", action="store_true")
     ap.add_argument("--list", action="store_true")
+    ap.add_argument("--selftest", action="store_true")
     a = ap.parse_args()
+    if a.selftest:
+        ok = True
+        for tool in (["cbmc", "--version"], ["goto-cc", "--version"], ["goto-instrument", "--version"], ["gcc", "--version"], ["objcopy", "--version"]):
+            try:
+                r = sh(tool)
+                print("selftest:", tool[0], r.stdout.splitlines()[0] if r.stdout else r.returncode)
+            except OSError as e:
+                print("selftest: MISSING", tool[0], e)
+                ok = False
+        for d in ("evidence", "replays", "build"):
+            os.makedirs(os.path.join(VERIF, d), exist_ok=True)
+        ok = ok and os.path.isdir(LIB)
+        return 0 if ok else 2
     if a.replay:
         sys.exit(do_replay(a.replay))
     import jobs as J
